@@ -565,48 +565,8 @@ func checkAuth(c authCase) (o pbt.Outcome) {
 			how = "panicked: " + panicked
 		}
 		detail := fmt.Sprintf("correct proof %s; want accepted, %s", how, desc())
-		// C30-F1: mysql.CheckHashPassword XORs the client's response in place. With no
-		// plugin recorded, a 20-byte response is tried against every hashed entry and then
-		// against the clear-text entries using the same buffer, so it only survives if the
-		// matching entry is a hashed one that no other hashed entry precedes, or the user
-		// has no hashed entry at all.
-		if c.Plugin == "" && len(resp) == 20 && panicked == "" && v.validNative {
-			// every stored string of length 41 starting with '*' is handed to
-			// mysql.CheckHashPassword (valid hex or not) and scrambles the buffer
-			clean := false
-			candBefore, nCand := 0, 0
-			for i, e := range c.Target {
-				st := e.stored()
-				if len(st) == 41 && st[0] == '*' {
-					if isHashed(e) && contains(v.nativeIdx, i) && candBefore == 0 {
-						clean = true
-					}
-					candBefore++
-					nCand++
-				}
-			}
-			if nCand == 0 {
-				clean = true
-			}
-			if !clean {
-				o.Known, o.KnownWhat = "C30-F1", detail
-				return
-			}
-		}
-		// C30-F2: after an auth switch to mysql_native_password only the clear-text
-		// comparison runs; a password stored as a SHA1 hash can never be proven.
-		if c.Plugin == "mysql_native_password" && panicked == "" && v.validNative {
-			onlyHashed := true
-			for _, i := range v.nativeIdx {
-				if !isHashed(c.Target[i]) {
-					onlyHashed = false
-				}
-			}
-			if onlyHashed {
-				o.Known, o.KnownWhat = "C30-F2", detail
-				return
-			}
-		}
+		// (C30-F1, the in-place XOR of mysql.CheckHashPassword, and C30-F2, hashed passwords after an
+		// auth switch, are fixed in /repo: a rejected correct proof is a plain violation again)
 		o.Violation = detail
 		return
 	}
